@@ -40,7 +40,8 @@ Proof. exact hd_ok_spec. Qed.
 Print Assumptions C30_hd_ok_spec.
 
 (* HEADLINE.  For every negotiated limit L (0..2^32-1) and EVERY sequence of operations
-   WriteField(f) / SetMaxDynamicTableSize(v) / end-of-block (fields: any byte strings shorter than 2^61,
+   WriteField(f) / SetMaxDynamicTableSize(v) / end-of-block, optionally with the receiver disabling emit after k
+   fields of the block (then exactly the first k fields are delivered, the table evolves as usual) (fields: any byte strings shorter than 2^61,
    any never-index flag; v any non-negative number; size changes are applied between header blocks, i.e. before
    the first field of a block, as RFC 7541 4.2 demands and the HTTP/2 layer does - wf_ops_b), the model encoder never panics and every block it emits
    is decoded by the model decoder (same settings, fed block by block) without error into exactly the fields
